@@ -128,8 +128,8 @@ def check_public_key_encoding(blob: bytes) -> None:
 
 def checksig(
     vm: Any,
-    sig_pair: tuple[int, int],
-    signature_type: int,
+    sig_pair: tuple[int, int] | None,
+    signature_type: int | None,
     pair_blob: bytes,
     blobs_to_delete: Any,
     sighash_cache: dict[int, Any],
@@ -142,6 +142,9 @@ def checksig(
     if verify_witness_pubkeytype:
         if len(pair_blob) != 33 or pair_blob[0] not in (2, 3):
             raise ScriptError("uncompressed key in witness", errno.WITNESS_PUBKEYTYPE)
+    if sig_pair is None:
+        # empty or unparseable signature: it matches no key
+        return False
     try:
         public_pair = sec_to_public_pair(pair_blob, generator, strict=verify_strict)
     except (ValueError, EncodingError):
@@ -175,7 +178,7 @@ def checksigs(vm: Any, sig_blobs: list[bytes], public_pair_blobs: list[bytes]) -
                 sig_blob, flags, vm
             )
         except (der.UnexpectedDER, ValueError):
-            public_pair_blobs = []
+            sig_pair, signature_type = None, None  # type: ignore[assignment]
         while len(sig_blobs_remaining) < len(public_pair_blobs):
             pair_blob = public_pair_blobs.pop()
             if checksig(
